@@ -793,7 +793,7 @@ def classify(exe, asan, test, data, lines, end):
             res.append(("exception:%s:%s" % (rd, l.split()[1]), l))
     # an LP that came out of the reader with duplicate entries / NaN / unmirrored storage is the finding; what the solver does
     # with it afterwards (exceptions, overruns in the presolver) is a consequence and would only multiply signatures
-    broken_lp = [x for x in res if re.search(r":(duplicate-entries|mirror|index-range|nan-in-data|infinite-coefficient)$", x[0])]
+    broken_lp = [x for x in res if re.search(r":(duplicate-entries|mirror|index-range|nan-in-data|infinite-coefficient|infinite-wrong-side|zero-denominator)$", x[0])]
     if broken_lp and not (how == "exit" and code == 0):
         res = [(sg, w + " [the later %s=%d of the post-read sequence is attributed to this]" % (how, code)) for sg, w in broken_lp]
         return res, "ok"
